@@ -75,6 +75,10 @@ class H5Reader:
             for key, value in entity.attrs.items():
                 attributes["entity"][key] = value
 
+            # the node is stored under its identifier: never fabricate another one
+            if "ID" not in attributes["entity"] and entity_type != "Root":
+                attributes["entity"]["ID"] = as_str_if_uuid(uid)
+
             if "Type" in entity:
                 type_attributes["entity_type"] = cls.fetch_type_attributes(
                     entity["Type"]
